@@ -197,14 +197,42 @@ fn replay_text(s: &str) -> Result<(), (String, String)> {
     }
 }
 
+/// n characters with codes 1..=255: printable ASCII mostly, the Latin-1 high half, control characters; one time in three
+/// in a padding style (all blanks / all one pad character, or a random text that begins or ends with blanks, 0xFF, 0x01,
+/// '0' or 0xA4 - what fixed-width senders pad with)
 fn lat1_string(rng: &mut crate::rng::Rng, n: usize) -> String {
-    (0..n).map(|_| if rng.below(4) == 0 { char::from_u32(0xA1 + rng.below(0x5E) as u32).unwrap() } else { char::from_u32(0x21 + rng.below(0x5E) as u32).unwrap() }).collect()
+    let any = |rng: &mut crate::rng::Rng| -> char {
+        match rng.below(8) {
+            0 | 1 => char::from_u32(0xA1 + rng.below(0x5E) as u32).unwrap(),
+            2 => char::from_u32(1 + rng.below(255) as u32).unwrap(),
+            _ => char::from_u32(0x20 + rng.below(0x5F) as u32).unwrap(),
+        }
+    };
+    let mut v: Vec<char> = (0..n).map(|_| any(rng)).collect();
+    if n > 0 && rng.below(3) == 0 {
+        let pad = [' ', '\u{ff}', '\u{1}', '0', '\u{a4}', '\u{7f}'][rng.below(6) as usize];
+        match rng.below(4) {
+            0 => v.iter_mut().for_each(|c| *c = pad),
+            1 => {
+                let k = 1 + rng.below(n.min(4) as u64) as usize;
+                for c in v.iter_mut().rev().take(k) {
+                    *c = pad;
+                }
+            }
+            2 => v[0] = pad,
+            _ => {
+                v[0] = pad;
+                v[n - 1] = pad;
+            }
+        }
+    }
+    v.into_iter().collect()
 }
 
 pub fn run(ctx: &Ctx, replay: Option<&J>) -> CheckResult {
     let rule = "every list-bearing type of the pinned layout table (legacy observables 1001-1004/1009-1012, 1013, network RTK 1015-1017/1037-1039/1030/1031/1034/1035/1303/1304, SSR \
         1057/1058/1060-1064/1066-1068) x every n=0..=capacity with elements drawn from decoded zero/ones/random vectors in varying order; descriptor strings of 1007/1008/1033/1021/1022/\
-        1300-1302 for every length 0..=31, the 1302 link list 0..=7 (links of random length, all empty, all at capacity, a single character among empty links), and the 1029 text for every byte length 0..=255 (1/2/3-byte characters, <=127 characters, special code points such as U+FEFF, U+200D, U+2028, NUL, backslash at the first / last position). oracle: build Ok, payload<=1023 bytes, count read from the wire at the pinned offset/width == n, decode == input \
+        1300-1302 for every length 0..=31 (codes 1..=255; one in three padded with blanks, 0xFF, 0x01, '0', 0xA4 or 0x7F at the end, the start or throughout), the 1302 link list 0..=7 (links of random length, all empty, all at capacity, a single character among empty links), and the 1029 text for every byte length 0..=255 (1/2/3-byte characters, <=127 characters, special code points such as U+FEFF, U+200D, U+2028, NUL, backslash at the first / last position). oracle: build Ok, payload<=1023 bytes, count read from the wire at the pinned offset/width == n, decode == input \
         (same number of elements, same order), also when the builder's first use was a refused or long message. Every count value above the capacity that the field can express (1057/1063: 61-63, 1060/1066: 40-63, 8-bit string counts 32-255) with a long \
         body => Corrupt; every byte truncation of full-length and mid-length frames (re-framed, valid CRC) => Corrupt (Empty below 2 bytes). non-trivial = all (n in {0,1,cap-1,cap} and \
         damaged frames are classed); distinct = (type, n, repetition) / hash of damaged payload"
